@@ -37,6 +37,9 @@ func (s spyOps) note(vs ...*variants.Variant) {
 	}
 }
 func (s spyOps) r2(a, b, r *variants.Variant, err error) (*variants.Variant, error) {
+	if a != nil && b != nil && farDate(a, b) {
+		c03FarDate = true // an operator converts an integer further than 2^40 seconds from the epoch into a date-time: time.Time itself overflows there (DESIGN.md 4.3)
+	}
 	s.note(a, b, r)
 	return r, err
 }
